@@ -13,7 +13,7 @@ from .. import rounding, mir
 from ..rounding import MODES, check_rounded, round_inc, Undecided, mode_names, u_summaries
 from .c05 import mode_arg, core_fn, CORE, MIN, MAX
 
-SIGNS = {'neg': (-M, -1), 'zero': (0, 0), 'pos': (1, M)}
+SIGNS = {'neg': (MIN, -1), 'zero': (0, 0), 'pos': (1, M)}
 TWO127 = 2**127
 
 
@@ -171,8 +171,8 @@ def run(rep, tier):
     jobs = []
     for p in ps:
         for sx in ('neg', 'zero', 'pos'):
-            # the property (and every caller) only uses positive divisors m
-            jobs.append(('S', 'shifted', p, sx, 'pos', None))
+            for sy in ('neg', 'pos'):
+                jobs.append(('S', 'shifted', p, sx, sy, None))
     for sx in ('neg', 'zero', 'pos'):
         for s2 in ('neg', 'zero', 'pos'):
             jobs.append(('S', 'muldiv', '-', sx, 'pos', s2))
@@ -186,7 +186,7 @@ def run(rep, tier):
                     for s2 in ('neg', 'pos'):
                         jobs.append(('W', 'muldiv', p, mode, via_none, sx, None, s2))
     run_jobs(rep, __name__, jobs)
-    rep.floor('S-WIDE-FLOOR', 3 * len(ps) + 9)
+    rep.floor('S-WIDE-FLOOR', 6 * len(ps) + 9)
     rep.floor('W-WIDE-ROUNDED', 16 * len(wps) * 6)
     # the callers' precondition of i256_div_mod_floor (y > 0) and who may call the U kernels
     ukern = ('fpdec_core::u128_mul_u128', 'fpdec_core::u256_idiv_u128')
